@@ -451,6 +451,14 @@ def run (ρ : List FunDef) : Nat → Job → St → R
           let (ls2, s2) := cloneAll ls [] s1
           allocVal s2 (.vec ls2) true
        | r => r)
+    | .evalStr nids n =>
+      -- `eval("<text>")`: a call of the engine's eval function; the text is parsed afresh (its nodes have no lookup hints) and
+      -- evaluated in the CURRENT scope; an eval_error inside leaves as a boxed exception value (`internal_eval`)
+      withFnCall (fun s0 =>
+        match run ρ f (.node n) (s0.dropHints nids) with
+        | (.ret l, s1) => (.val l, s1)
+        | (.thrown (.evalErr _), s1) => (.thrown (.boxed (s1.allocV (.exc .evalError) true false).1), (s1.allocV (.exc .evalError) true false).2)
+        | r => r) s
     | .index a i =>
       withFnCall (fun s0 =>
         bnd (run ρ f (.node a) s0) (fun la s1 =>
